@@ -140,8 +140,9 @@ Definition b64decode_tok (v : pyval) : result string := match v with PStr tok =>
 Definition is_instance (v : pyval) (c : cls) : bool := match v with PObj c' _ => cls_eqb c' c | _ => false end.
 (* v is None *)
 Definition is_none (v : pyval) : bool := match v with PNone => true | _ => false end.
-(* v.items() on a field value: defined for dicts; anything else is outside the documented field types (ModelScope) *)
-Definition pv_items (v : pyval) : result (list (pyval * pyval)) := match v with PDict kvs => Ok kvs | _ => Err ModelScope end.
+(* v.items() on a field value: defined for dicts and dict subclasses (view_dict); anything else is outside the documented
+   field types (ModelScope) *)
+Definition pv_items (v : pyval) : result (list (pyval * pyval)) := match view_dict v with Some kvs => Ok kvs | None => Err ModelScope end.
 (* a Python list of 2-tuples (dict.items()) as a value *)
 Definition items_value (kvs : list (pyval * pyval)) : pyval := PList (map (fun kv_ => PTuple [fst kv_; snd kv_]) kvs).
 '''
